@@ -109,6 +109,13 @@ func checkC01(c *ProgCase) *Outcome {
 			return bad("%s: %v\n src: %s", o.Be, werr, r.Src)
 		}
 	}
+	// and through Expr.Parse + Expr.CompileExpr on one tree that is also compiled against sibling
+	// types before and afterwards: a well-formed value of the type inferred for THIS compilation
+	if len(r.Runs) > 0 && !r.Runs[0].O.Failed() {
+		if o := twoStepRoute(c, r); o != nil {
+			return o
+		}
+	}
 	two, composite := orderStats(c, r)
 	accessOrComposite := composite || c.Stats["member"] > 0 || c.Stats["index-list"] > 0 || c.Stats["index-map"] > 0
 	classes := []string{fmt.Sprintf("produced-value:%v", produced)}
@@ -235,7 +242,7 @@ func checkC01Partial(c *ProgCase) *Outcome {
 var c01partial = Register(&Prop[ProgCase]{ID: "C01", Name: "preservation-with-partial-operations", Gen: genProgCase(c01partialOpt, run.StdHarness), Check: checkC01Partial})
 
 func TestC01(t *testing.T) {
-	R.Rule = "well-typed programs over literals, variables, lists, maps, objects, member / subscript access, overloaded and polymorphic calls; every object occurrence (literal elements, conditional arms, typing environment, run-time values) written in an independently drawn field order; four back ends; plus member / subscript paths into reflect-built Go host values (two values of one Go type in a row), whose results must be well-formed values of the type inferred against that host data; plus programs with partial operations (failures inside the deferred operand of a recovering lazy host function leave a produced value); plus programs mutated towards ill-typedness (C05's catalogue, user overloads): whenever yae's own checker accepts one with type T (the reference is not consulted), every value produced must be a well-formed value of T; plus C07's pairs of compile-time and mutated run-time environments: whenever the Callable evaluates over the run-time environment and yields a value, it is a well-formed value of the type inferred at compile time; oracle: inferred type = reference type and checked walk of every produced value (tag of every component equals the declared component type, no nil component, map entries under the key their text denotes); non-trivial = a value was produced, the program has a composite result or a member/subscript access, and one object type occurs in two field orders or a polymorphic / overloaded call is present"
+	R.Rule = "well-typed programs over literals, variables, lists, maps, objects, member / subscript access, overloaded and polymorphic calls; every object occurrence (literal elements, conditional arms, typing environment, run-time values) written in an independently drawn field order; four back ends, and through Expr.Parse + Expr.CompileExpr on one parsed tree that is compiled against sibling types before and afterwards (VM, closure, interpreter); plus member / subscript paths into reflect-built Go host values (two values of one Go type in a row), whose results must be well-formed values of the type inferred against that host data; plus programs with partial operations (failures inside the deferred operand of a recovering lazy host function leave a produced value); plus programs mutated towards ill-typedness (C05's catalogue, user overloads): whenever yae's own checker accepts one with type T (the reference is not consulted), every value produced must be a well-formed value of T; plus C07's pairs of compile-time and mutated run-time environments: whenever the Callable evaluates over the run-time environment and yields a value, it is a well-formed value of the type inferred at compile time; oracle: inferred type = reference type and checked walk of every produced value (tag of every component equals the declared component type, no nil component, map entries under the key their text denotes); non-trivial = a value was produced, the program has a composite result or a member/subscript access, and one object type occurs in two field orders or a polymorphic / overloaded call is present"
 	R.Assume = []string{"ref.Check encodes the typing rules of C05's statement"}
 	reportKnown(t, "C01")
 	runRegress(t, "C01")
